@@ -132,7 +132,9 @@ func c13BigPool(n int) c13Pool {
 		case 2:
 			mk = func() ap.Item { return &ap.Actor{ID: id(i), Type: ap.PersonType} }
 		case 3:
-			mk = func() ap.Item { return &ap.Activity{ID: id(i), Type: ap.LikeType, Object: ap.IRI("https://example.com/liked")} }
+			mk = func() ap.Item {
+				return &ap.Activity{ID: id(i), Type: ap.LikeType, Object: ap.IRI("https://example.com/liked")}
+			}
 		default:
 			mk = func() ap.Item { return ap.Object{ID: id(i), Type: ap.ArticleType} }
 		}
@@ -235,9 +237,9 @@ func init() {
 		Assumptions: []string{"reading D7: IRIs has no item-list view, so Remove is not in its alphabet", "items of distinct identity only (the stated domain)"},
 		Bound: func(tier string) string {
 			if tier == "thorough" {
-				return "pool of 4: all histories of depth <= 5 over 15 operations; pool of 5: depth <= 4 over 19 operations; x 6 kinds x 2 start states"
+				return "pool of 4: all histories of depth <= 5 over 15 operations; pool of 5: depth <= 4 over 19 operations; x 6 kinds x 2 start states; far states: each kind grown to 7..129 members in three ways (one by one, one variadic Append, pre-populated), then every continuation of depth <= 2 over 9-13 operations"
 			}
-			return "pool of 5: all histories of depth <= 3 over 19 operations; pool of 4: depth <= 4 over 15 operations; x 6 kinds x 2 start states"
+			return "pool of 5: all histories of depth <= 3 over 19 operations; pool of 4: depth <= 4 over 15 operations; x 6 kinds x 2 start states; far states: each kind grown to 7..129 members in three ways (one by one, one variadic Append, pre-populated), then every continuation of depth <= 2 over 9-13 operations"
 		},
 		Run: c13Run,
 	})
